@@ -1380,6 +1380,19 @@ func (r *Resolver) authority(ctx context.Context, req, resp *dns.Msg, parentDS [
 	// records it has no say over. answer() clears the section for the same
 	// reason; keep only the OPT here.
 	resp.Extra = optOnly(resp.Extra)
+	// The same goes for authority records owned outside the zone that was
+	// asked: signature checks only ever looked at in-zone records, so a
+	// record for another name rode along unexamined — next to AD when the
+	// denial itself validated.
+	if zone != "" {
+		inZone := resp.Ns[:0:0]
+		for _, rr := range resp.Ns {
+			if rr != nil && dnsutil.NameInZone(dns.CanonicalName(rr.Header().Name), dns.CanonicalName(zone)) {
+				inZone = append(inZone, rr)
+			}
+		}
+		resp.Ns = inZone
+	}
 
 	return resp, nil
 }
